@@ -77,7 +77,7 @@ GROUPS = [
 
 
 def judge(ctx, cases, tag):
-    obs = ctx.run_exec("defs", cases, tag)
+    obs = ctx.run_exec("defs", cases, tag, env={"GOGC": "400"})
     res = ctx.tlc_trace("Defs_Trace.tla", "Defs_Trace.cfg", obs, tag)
     dev = ctx.extra_cov.setdefault("model_deviations", [])
     for w in res:
